@@ -95,6 +95,9 @@ type Engine struct {
 	dropped   map[string]int
 	assumes   map[string]bool
 	maxInline int
+	inlineMax int
+	modSets   map[*ssa.Function]*modSet
+	modBusy   map[*ssa.Function]bool
 }
 
 // Exec is the state of the verification of one top-level function.
@@ -1030,52 +1033,40 @@ func (a autoInv) at(f *frame, e *Exec, over map[*ssa.Phi]Val) string {
 			v = o
 		}
 	}
-	return e.s.ixLe(a.init, v.T)
+	return and(e.s.ixLe(e.s.ixLit(-1), v.T), e.s.ixLt(v.T, a.init))
 }
 
-// autoInvariants: induction variables that start at a constant and are incremented by a
-// positive constant stay >= their initial value (checked like any invariant).
+// autoInvariants: the index variable go/ssa generates for a range loop over a slice, array or
+// string ("rangeindex": starts at -1, is incremented by one while it stays below the length, which
+// is evaluated once) satisfies -1 <= idx < len. This is a fact about compiler-generated code and is
+// assumed, not checked; hand-written loops get no automatic invariant.
 func (e *Exec) autoInvariants(f *frame, li *loopInfo, phis []*ssa.Phi, entry map[*ssa.Phi]Val) []autoInv {
 	var out []autoInv
 	for _, p := range phis {
-		if !isIntType(p.Type()) || isUnsigned(p.Type()) {
+		if p.Comment != "rangeindex" {
 			continue
 		}
-		b, ok := p.Type().Underlying().(*types.Basic)
-		if !ok || intWidth(b) != 64 {
+		var next *ssa.BinOp
+		for _, in := range li.header.Instrs {
+			if bo, ok := in.(*ssa.BinOp); ok && bo.Op == token.ADD && bo.X == ssa.Value(p) {
+				next = bo
+			}
+		}
+		if next == nil {
 			continue
 		}
-		okAll := true
-		for i, ed := range p.Edges {
-			pred := p.Block().Preds[i]
-			if li.blocks[pred] {
-				bo, ok := ed.(*ssa.BinOp)
-				if !ok || bo.Op != token.ADD || bo.X != ssa.Value(p) {
-					okAll = false
-					break
-				}
-				c, ok := bo.Y.(*ssa.Const)
-				if !ok || c.Value == nil || constant.Sign(c.Value) <= 0 {
-					okAll = false
-					break
-				}
-			} else {
-				if _, ok := ed.(*ssa.Const); !ok {
-					okAll = false
+		for _, in := range li.header.Instrs {
+			if bo, ok := in.(*ssa.BinOp); ok && bo.Op == token.LSS && bo.X == ssa.Value(next) {
+				if _, defined := f.vals[bo.Y]; defined || isConst(bo.Y) {
+					out = append(out, autoInv{phi: p, init: e.val(f, bo.Y).T, desc: p.Comment})
 				}
 			}
 		}
-		if !okAll {
-			continue
-		}
-		ev := entry[p]
-		if ev.T == "" {
-			continue
-		}
-		out = append(out, autoInv{phi: p, init: ev.T, desc: p.Comment})
 	}
 	return out
 }
+
+func isConst(v ssa.Value) bool { _, ok := v.(*ssa.Const); return ok }
 
 func labelOr(c *Clause, d string) string {
 	if c.Label != "" {
@@ -1094,7 +1085,7 @@ func (e *Exec) discoverLoopMods(f *frame, li *loopInfo, loops map[*ssa.BasicBloc
 	savedG, savedH, savedGuard := copyMapS(f.gOut), copyMapH(f.heapOut), copyMapS(f.guard)
 	savedRets := len(f.rets)
 	savedDef := len(f.defers)
-	savedPriv := len(e.priv)
+	savedPriv := append([]*privRef{}, e.priv...)
 	savedLoopCtx := len(e.loopCtx)
 	savedAlloc := e.allocN
 	savedOrd := map[string]int{}
@@ -1150,7 +1141,7 @@ func (e *Exec) discoverLoopMods(f *frame, li *loopInfo, loops map[*ssa.BasicBloc
 	f.gOut, f.heapOut, f.guard = savedG, savedH, savedGuard
 	f.rets = f.rets[:savedRets]
 	f.defers = f.defers[:savedDef]
-	e.priv = e.priv[:savedPriv]
+	e.priv = savedPriv
 	e.loopCtx = e.loopCtx[:savedLoopCtx]
 	e.allocN = savedAlloc
 	e.callOrd = savedOrd
@@ -1217,9 +1208,6 @@ func (e *Exec) backEdge(f *frame, from, header *ssa.BasicBlock, h *Heap, g strin
 	for _, c := range lc.invs {
 		t := e.evalInvariant(f, c, lc.li, h, over)
 		e.addObligation(f, "inv-preserve", c, fmt.Sprintf("loop%d.%s.preserved@b%d", lc.li.ord, labelOr(c, "inv"), from.Index), g, t, header.Instrs[0].Pos())
-	}
-	for _, a := range lc.auto {
-		e.addObligationRaw(f, "inv-preserve", fmt.Sprintf("loop%d.auto.%s.preserved@b%d", lc.li.ord, a.desc, from.Index), "", nil, g, a.at(f, e, over), header.Instrs[0].Pos(), false)
 	}
 }
 
@@ -1361,4 +1349,9 @@ func (o *Obligation) callResult(model map[string]string, keySuffix string, k, re
 		}
 	}
 	return "", false
+}
+
+func (e *Exec) newAlloc() string {
+	e.allocN++
+	return fmt.Sprintf("(- %d)", e.allocN)
 }
